@@ -89,8 +89,11 @@ def make_targets(a, prog):
             out.append(('supplier-amount|%s<-%s' % (m.FullCode, s.FullCode), t))
         out.append(('allocated|%s' % m.FullCode, G.sum_ast(alloc)))
     # portfolios
+    weighted = list(prog.get('weighted', []))
     for info in prog.get('infos', []):
-        for sid, codes, residual in info.get('weighted', []):
+        weighted.extend(info.get('weighted', []))
+    for sid, codes, residual in weighted:
+        if True:
             s = a['objs'][sid]
             terms = [(-1, V(s.GetVariableName('F')))]
             for c in list(codes) + [residual]:
